@@ -125,7 +125,8 @@ def make_run(case):
         T = rnd.randint(40, 90)  # long histories: late refreshes, bias corrections close to 1, many mask changes
     pk, presence = G.rand_presence(rnd, n, T)
     edits = G.rand_schedule(rnd, T, len(groups) if groups else 1, cfg)
-    return {"cfg": cfg, "shapes": shapes, "groups": groups, "T": T, "presence_kind": pk, "presence": presence, "edits": edits, "grad_scale": gs, "grad_kind": rnd.choice(["dense", "dense", "lowrank", "sparse"])}
+    closure_steps = sorted(t for t in range(T) if rnd.random() < 0.5) if rnd.random() < 0.2 else []
+    return {"cfg": cfg, "shapes": shapes, "groups": groups, "T": T, "presence_kind": pk, "presence": presence, "edits": edits, "closure_steps": closure_steps, "grad_scale": gs, "grad_kind": rnd.choice(["dense", "dense", "lowrank", "sparse"])}
 
 
 def diverged(params, run):
@@ -164,6 +165,7 @@ def execute(run, case_seed, counters, monitor_kwargs=None, on_step=None):
     mon = Monitor(ds, torch, opt, cfg, run["groups"], counters=counters, **(monitor_kwargs or {}))
     gg = tgen(*case_seed, "grads")
     edits = list(run["edits"])
+    closure_steps = set(run.get("closure_steps", ()))
     execute.last_params = params
     for t in range(run["T"]):
         for e in [e for e in edits if e[0] == t]:
@@ -173,7 +175,26 @@ def execute(run, case_seed, counters, monitor_kwargs=None, on_step=None):
         for j, p in enumerate(params):
             p.grad = G.grad_for(torch, gg, p.shape, dt, run["grad_kind"], run["grad_scale"] * (1 + j)) if run["presence"][t][j] else None
         mon.pre()
-        opt.step()
+        if t in closure_steps:
+            # step(closure): the gradients exist only once the closure has run (they are taken away after the monitor has
+            # seen them and handed back by the closure), and the closure's value is what step() returns
+            stash = [p.grad for p in params]
+            for p in params:
+                p.grad = None
+            calls = []
+
+            def closure():
+                calls.append(torch.is_grad_enabled())
+                for p, g in zip(params, stash):
+                    p.grad = g
+                return 0.25 + t
+
+            out = opt.step(closure)
+            counters["closure_steps"] = counters.get("closure_steps", 0) + 1
+            if calls != [True] or out != 0.25 + t:
+                raise Violation("step(closure) did not evaluate the closure exactly once with gradients enabled and return its value", {"step": t, "calls": calls, "returned": repr(out)})
+        else:
+            opt.step()
         mon.post()
         if on_step:
             on_step(t, opt, params, mon)
